@@ -217,6 +217,28 @@ func (c *Config) Validate() error {
 	if err := c.validateDurations(); err != nil {
 		return err
 	}
+	if err := c.validateListeners(); err != nil {
+		return err
+	}
+	return nil
+}
+
+// validateListeners refuses two enabled listeners on one port: only one of them could bind
+// it, and the process would run without the other (the metrics and Admin API servers only
+// log that they could not start)
+func (c *Config) validateListeners() error {
+	taken := map[int]string{c.Server.Port: "server.port"}
+	if c.Metrics.Enabled {
+		if other, clash := taken[c.Metrics.Port]; clash {
+			return fmt.Errorf("metrics.port %d is already used by %s", c.Metrics.Port, other)
+		}
+		taken[c.Metrics.Port] = "metrics.port"
+	}
+	if c.AdminAPI.Enabled {
+		if other, clash := taken[c.AdminAPI.Port]; clash {
+			return fmt.Errorf("admin_api.port %d is already used by %s", c.AdminAPI.Port, other)
+		}
+	}
 	return nil
 }
 
@@ -309,7 +331,11 @@ func validateBackendAddress(address string) error {
 		return fmt.Errorf("address %q names no host", address)
 	}
 	if strings.HasPrefix(u.Host, "[") {
-		if net.ParseIP(u.Hostname()) == nil {
+		literal := u.Hostname()
+		if i := strings.Index(literal, "%"); i >= 0 {
+			literal = literal[:i] // zone of a link-local address ("[fe80::1%25eth0]")
+		}
+		if net.ParseIP(literal) == nil {
 			return fmt.Errorf("address %q: %q is not an IPv6 address", address, u.Hostname())
 		}
 	} else if strings.Contains(u.Hostname(), ":") {
@@ -471,6 +497,15 @@ func (c *Config) validateMetrics() error {
 		if c.Metrics.Path == "" {
 			return fmt.Errorf("metrics path is required when enabled")
 		}
+		// The metrics server registers the path as it is: one that does not start with a slash
+		// (or has an empty segment) is never matched by a request, and "/health" is taken by the
+		// metrics server's own health endpoint (registering it twice stops the process)
+		if !strings.HasPrefix(c.Metrics.Path, "/") || strings.Contains(c.Metrics.Path, "//") {
+			return fmt.Errorf("metrics path must be an absolute path such as /metrics (got %q)", c.Metrics.Path)
+		}
+		if c.Metrics.Path == "/health" {
+			return fmt.Errorf("metrics path /health is taken by the metrics server's health endpoint")
+		}
 	}
 	return nil
 }
@@ -504,5 +539,31 @@ func (c *Config) validateLogging() error {
 	if c.Logging.Format != "" && !validLogFormats[c.Logging.Format] {
 		return fmt.Errorf("invalid log format: %s (valid: text, json, console)", c.Logging.Format)
 	}
+	// The ID headers are set on every proxied request: with a name that is not a header name
+	// net/http refuses to send the request and every request ends in a 502
+	if name := strings.TrimSpace(c.Logging.RequestID.Header); c.Logging.RequestID.Enabled && name != "" && !isHeaderName(name) {
+		return fmt.Errorf("logging.request_id.header %q is not a valid header name", c.Logging.RequestID.Header)
+	}
+	if name := strings.TrimSpace(c.Logging.Trace.Header); c.Logging.Trace.Enabled && name != "" && !isHeaderName(name) {
+		return fmt.Errorf("logging.trace.header %q is not a valid header name", c.Logging.Trace.Header)
+	}
 	return nil
+}
+
+// isHeaderName reports whether s is a token (RFC 9110 5.6.2), which is what a header field
+// name has to be
+func isHeaderName(s string) bool {
+	if s == "" {
+		return false
+	}
+	for i := 0; i < len(s); i++ {
+		c := s[i]
+		switch {
+		case c >= 'a' && c <= 'z', c >= 'A' && c <= 'Z', c >= '0' && c <= '9':
+		case strings.IndexByte("!#$%&'*+-.^_`|~", c) >= 0:
+		default:
+			return false
+		}
+	}
+	return true
 }
